@@ -33,10 +33,15 @@ const deadlineScale = 6
 // Cfg is the alert node configuration in model terms.
 type Cfg struct {
 	Anon, Named, SCO bool
+	// not part of the model: event time pattern and name class of the alert IDs (names.go)
+	Zig   bool
+	Names int
 }
 
 // (keys sort after "ev" so that every Reset line starts with {"ev":"Reset" - verifylib splits on that)
-func (c Cfg) fields() rt.M { return rt.M{"hasAnon": c.Anon, "hasNamed": c.Named, "sco": c.SCO} }
+func (c Cfg) fields() rt.M {
+	return rt.M{"hasAnon": c.Anon, "hasNamed": c.Named, "sco": c.SCO, "times": timesLabel(c.Zig), "names": c.Names}
+}
 
 // Pt is one data point: alert ID (= group) and the level its value maps to.
 type Pt struct {
@@ -176,7 +181,7 @@ func (w *world) onUpdate(ns, phase string, ops []rt.TxOp, err error) {
 	r := &txRec{Op: o.Op}
 	switch {
 	case len(o.Bucket) == 1:
-		r.Topic, r.ID = w.model(o.Bucket[0]), o.Key
+		r.Topic, r.ID = w.model(o.Bucket[0]), nameClasses[w.cfg.Names].modelID(o.Key)
 		if o.Op == "put" {
 			var es alertservice.EventState
 			if e := es.UnmarshalJSON(o.Value); e != nil {
@@ -275,7 +280,8 @@ func (w *world) quiesce() {
 // feed writes point k and returns when the alert node has completely processed it
 // (all collects and commits done) and every handler has seen what was enqueued.
 func (w *world) feed(k int, p Pt) {
-	mp := rt.MustPoint("m", map[string]string{"id": p.ID}, map[string]any{"v": int64(p.Lvl)}, rt.DefaultTime.T(k))
+	mp := rt.MustPoint("m", map[string]string{"id": nameClasses[w.cfg.Names].realID(p.ID)}, map[string]any{"v": int64(p.Lvl)},
+		rt.DefaultTime.T(timeIndex(w.cfg.Zig, k)))
 	if err := w.env.TM.WritePoints("db", "rp", imodels.ConsistencyLevelAll, []imodels.Point{mp}); err != nil {
 		rt.Fatalf("c08: WritePoints: %v", err)
 	}
@@ -309,7 +315,7 @@ func (w *world) real(t string) string {
 
 // stateOf reports the topic through the service API: [id, level] for every event the
 // topic knows (EventStates(OK)), sorted by id; a topic the service does not know is [].
-func stateOf(as *alertservice.Service, real string) []any {
+func stateOf(as *alertservice.Service, real string, nc nameClass) []any {
 	out := []any{}
 	ts, ok, _ := as.TopicState(real)
 	if !ok {
@@ -322,7 +328,7 @@ func stateOf(as *alertservice.Service, real string) []any {
 	max := 0
 	for _, id := range rt.SortedKeys(es) {
 		l := int(es[id].Level)
-		out = append(out, []any{id, l})
+		out = append(out, []any{nc.modelID(id), l})
 		if l > max {
 			max = l
 		}
@@ -350,19 +356,20 @@ func stateOf(as *alertservice.Service, real string) []any {
 func (w *world) state() rt.M {
 	out := rt.M{}
 	for _, t := range w.topics() {
-		out[t] = stateOf(w.env.Alert, w.real(t))
+		out[t] = stateOf(w.env.Alert, w.real(t), nameClasses[w.cfg.Names])
 	}
 	return out
 }
 
-func encEvents(evs []alert.Event) []any {
+// encEvents: [model id, level, index of the point the event belongs to (from its time)]
+func encEvents(evs []alert.Event, c Cfg) []any {
 	out := []any{}
 	for _, e := range evs {
 		k, ok := rt.DefaultTime.KOK(e.State.Time)
 		if !ok {
 			k = -1
 		}
-		out = append(out, []any{e.State.ID, int(e.State.Level), k})
+		out = append(out, []any{nameClasses[c.Names].modelID(e.State.ID), int(e.State.Level), timeIndex(c.Zig, k)})
 	}
 	return out
 }
@@ -371,10 +378,10 @@ func encEvents(evs []alert.Event) []any {
 func (w *world) told() rt.M {
 	out := rt.M{}
 	if w.cfg.Anon {
-		out["anon"] = encEvents(w.env.NodeTalk.All())
+		out["anon"] = encEvents(w.env.NodeTalk.All(), w.cfg)
 	}
 	if w.cfg.Named {
-		out["named"] = encEvents(w.env.SpecTalk.All())
+		out["named"] = encEvents(w.env.SpecTalk.All(), w.cfg)
 	}
 	return out
 }
